@@ -48,6 +48,7 @@ class Ctx(object):
         self.rules = {}
         self.assumptions = []
         self.notes = []
+        self.unrecognised = []
         self._seen_reports = set()
 
     def _rule(self, rule):
@@ -87,6 +88,18 @@ class Ctx(object):
         self._rule(rule)['reports'] += 1
         self.reports.append(rep)
 
+    def idiom(self, rule, construct, what, accepted, absent, detail_absent, shape='', where=''):
+        """Tri-state obligation for checks that recognise a list of idioms: the accepted form holds, the construct
+        is absent / in a known-bad form (a violation), or it is present in a form the checker does not know
+        (undecided -> ANALYSIS-ERROR, never a guess)."""
+        if accepted:
+            return self.ob(rule, construct, what, True)
+        if absent:
+            return self.ob(rule, construct, what, False, detail=detail_absent, where=where)
+        self._rule(rule)['instances'] += 1
+        self.unrecognised.append('%s %s: "%s" is written in a form the checker does not recognise: %s' % (rule, construct, what, shape))
+        return None
+
     def exception(self, rule, row, reason):
         """A reasoned exception row was used."""
         self._rule(rule)['exceptions_used'].append('%s - %s' % (row, reason))
@@ -100,6 +113,10 @@ class Ctx(object):
     def assume(self, text):
         if text not in self.assumptions:
             self.assumptions.append(text)
+
+    def check_unrecognised(self):
+        if self.unrecognised and not self.reports:
+            raise AnalysisError('unrecognised idiom(s): ' + ' | '.join(self.unrecognised[:3]))
 
     def check_floors(self):
         for name, r in sorted(self.rules.items()):
